@@ -61,13 +61,21 @@ def pipeline(item):
             kw.pop("token_dictionary")
             kw["ngram_size"] = 2
         kw.update(item.get("extra") or {})
-        S = C(**kw).fit_transform(X).tocsr()
+        mdl = C(**kw)
+        S = mdl.fit_transform(X).tocsr()
         S.eliminate_zeros()
         M = S.toarray().astype(np.float64)
         mats.append(M)
         # cell codes for Trace_EMChain: 0 = absent, q + 1 = present with q = floor(v * unit)
         unit = 10 ** 4 if (k == 0 and item["eps"] == 0) else 10 ** 6
         codes.append([[0 if v == 0 else int(np.floor(v * unit)) + 1 for v in row] for row in M])
+    extra = {}
+    if item["family"] == "ngram":
+        # the corpus and the row n-grams in the fitted model's own token indices (Trace_EMChain family "ngram")
+        tl = mdl.token_label_dictionary_
+        rows = sorted(mdl.ngram_label_dictionary_.items(), key=lambda kv: kv[1])
+        extra = {"ng_corpus": [[int(tl[TOKS[t]]) for t in d] for d in item["corpus"]],
+                 "ng_grams": [[int(tl[t]) for t in (g.split("_") if isinstance(g, str) else g)] for g, _ in rows], "ng_V": len(tl)}
     FX = 10 ** 6
-    return {"codes": codes, "mats": [[[int(round(v * FX)) for v in row] for row in M] for M in mats],
+    return {"extra": extra, "codes": codes, "mats": [[[int(round(v * FX)) for v in row] for row in M] for M in mats],
             "finite": bool(all(np.all(np.isfinite(M)) for M in mats)), "shape": list(mats[0].shape)}
